@@ -26,7 +26,7 @@ def plist(c):
 
 def correspond(ctx):
     rng, tier = ctx["rng"], ctx["tier"]
-    n = 10 if tier == "quick" else 80
+    n = 10 if tier == "quick" else 240
     cases, meta = [], []
     for k in range(n):
         p = ic.gen_params(rng, small=(tier == "quick" or k % 3 != 0))
